@@ -340,6 +340,35 @@ impl Node {
         }
     }
 
+    /// direct children, mutably
+    pub fn children_mut(&mut self) -> Vec<&mut Node> {
+        match self {
+            Node::Named(_) | Node::Pos(_) | Node::Cmd(_) | Node::Pure(_) | Node::Fail(_) => {
+                Vec::new()
+            }
+            Node::Seq(xs) | Node::Alt(xs) | Node::Adjacent(xs) => xs.iter_mut().collect(),
+            Node::Optional { n, .. }
+            | Node::Many { n, .. }
+            | Node::Some { n, .. }
+            | Node::Collect { n, .. }
+            | Node::Count(n)
+            | Node::Last(n)
+            | Node::Fallback { n, .. }
+            | Node::FallbackWith { n, .. }
+            | Node::Guard { n, .. }
+            | Node::Parse { n, .. }
+            | Node::Map(n)
+            | Node::Hide(n)
+            | Node::HideUsage(n)
+            | Node::CustomUsage(n, _)
+            | Node::GroupHelp(n, _)
+            | Node::WithGroupHelp(n, _)
+            | Node::Complete { n, .. }
+            | Node::CompleteShell(n, _)
+            | Node::Boxed(n) => vec![&mut **n],
+        }
+    }
+
     /// visit every node of this level and all nested command levels
     pub fn walk<'a>(&'a self, deep: bool, f: &mut dyn FnMut(&'a Node)) {
         f(self);
